@@ -1,7 +1,7 @@
 (** The hooked socket I/O loops of core/src/syscall/unix (mod.rs macros impl_nio_read,
     impl_nio_read_buf, impl_nio_write_buf, impl_nio_read_iovec, impl_nio_write_iovec, recvmsg.rs,
     sendmsg.rs, connect.rs) transcribed statement by statement, AS THEY ARE after the fix commits
-    of group A, against a scripted kernel. Executable; no proofs here.
+    of group A (findings 15-19 repaired; 20 is not: a would-block always waits), against a scripted kernel. Executable; no proofs here.
 
     Sizes, offsets and positions are [nat]; return values, errno and time are [Z].
     A script entry is [(dt, response)]: the kernel call first advances the (virtual) clock by [dt].
@@ -129,11 +129,11 @@ Definition buf_body (d : dir) (blocking : bool) (limit start : Z) (len : nat)
   if brk then BExit r2 s2 else
   match classify (s_errno s2) with
   | KWouldBlock =>
-      if negb blocking then BExit r2 s2                        (* non-blocking caller: break *)
-      else
-        let '(ok, left', s3) := do_wait limit start s2 in
-        if ok then BAgain received2 left' r2 s3
-        else BExit (Z.of_nat received2) s3                     (* r = received; break *)
+      (* waits whether or not the caller had made the descriptor non-blocking (finding
+         nonblocking_fd_waits) *)
+      let '(ok, left', s3) := do_wait limit start s2 in
+      if ok then BAgain received2 left' r2 s3
+      else BExit (Z.of_nat received2) s3                       (* r = received; break *)
   | KInterrupted => BAgain received2 left r2 s2
   | KOther => BExit r2 s2
   end.
@@ -205,16 +205,12 @@ Definition vec_body (d : dir) (fl : flavor) (blocking : bool) (limit start : Z) 
       if brk then VBreak v2 s2 else
       match classify (s_errno s2) with
       | KWouldBlock =>
-          if negb blocking then
-            (* forget(vec); if received > 0 { r = received }; return r *)
-            VReturn (total_or (v_r v2) (v_received v2)) s2
-          else
-            let '(ok, left', s3) := do_wait limit start s2 in
-            if ok then VAgain (mkVV (v_received v2) left' (v_r v2) (v_offset v2) (v_arg v2)) s3
-            else match fl with
-                 | FIov => VReturn (Z.of_nat (v_received v2)) (restore blocking s3)
-                 | FMsg => VReturn (total_or (v_r v2) (v_received v2)) (restore blocking s3)
-                 end
+          let '(ok, left', s3) := do_wait limit start s2 in
+          if ok then VAgain (mkVV (v_received v2) left' (v_r v2) (v_offset v2) (v_arg v2)) s3
+          else match fl with
+               | FIov => VReturn (Z.of_nat (v_received v2)) (restore blocking s3)
+               | FMsg => VReturn (total_or (v_r v2) (v_received v2)) (restore blocking s3)
+               end
       | KInterrupted => VAgain v2 s2
       | KOther => VReturn (total_or (v_r v2) (v_received v2)) (restore blocking s2)
       end
@@ -288,9 +284,8 @@ Definition acc_body (blocking : bool) (limit start : Z) (x : Z * resp) (left : Z
   if negb (r =? -1) then AExit r (set_errno s1 0)
   else match classify (s_errno s1) with
        | KWouldBlock =>
-           if negb blocking then AExit r s1
-           else let '(ok, left', s2) := do_wait limit start s1 in
-                if ok then AAgain left' r s2 else AExit r s2
+           let '(ok, left', s2) := do_wait limit start s1 in
+           if ok then AAgain left' r s2 else AExit r s2
        | KInterrupted => AAgain left r s1
        | KOther => AExit r s1
        end.
@@ -336,13 +331,11 @@ Definition run_connect (limit : Z) (sc : script) (s : st) : outcome * st :=
     if 0 <? limit then
       if r =? 0 then (ORet r, set_errno s2 0)
       else if in_progress (s_errno s2) then
-        if negb blocking then (ORet r, s2)
+        let '(ok, left', s3) := do_wait limit start s2 in
+        if negb ok then (ORet r, s3)
         else
-          let '(ok, left', s3) := do_wait limit start s2 in
-          if negb ok then (ORet r, s3)
-          else
-            (* r = getpeername = 0; r = getsockopt = 0, err = 0; second iteration *)
-            if 0 <? left' then (ORet 0, set_errno s3 0) else (ORet 0, s3)
+          (* r = getpeername = 0; r = getsockopt = 0, err = 0; second iteration *)
+          if 0 <? left' then (ORet 0, set_errno s3 0) else (ORet 0, s3)
       else if s_errno s2 =? EINTR then (OStuck, s2)
       else (ORet r, s2)
     else (ORet r, s2) in
